@@ -12,7 +12,7 @@ use serde_json::{json, Value};
 
 #[derive(Clone, Debug)]
 pub struct Case {
-    pub presence: usize, // 0 tool+base, 1 tool, 2 base, 3 none, 4 moved base + tool, 5 tool+base under a parallelogram (J2 drives J3)
+    pub presence: usize, // 0 tool+base, 1 tool, 2 base, 3 none, 4 moved base + tool, 5 tool+base under a parallelogram (J2 drives J3), 6 tool + base whose body includes a post beside the robot (not symmetric about J1)
     pub layout: usize,
     pub safety: usize, // 0 touch, 1 3 cm
     pub limits: usize, // 0 wide, 1 tight
@@ -34,6 +34,7 @@ fn cell_for(c: &Case) -> CellDesc {
         }
         4 => cell.base = Some(Iso::new(rotz(0.4), [0.3, -0.2, 0.1])),
         5 => cell.para = Some((1, 2, 1.0)),
+        6 => cell.base_shape = 1,
         _ => {}
     }
     cell.envs = match c.layout {
@@ -80,6 +81,7 @@ pub fn eval(c: &Case, pools: bool) -> Result<(Vec<(String, String)>, String), &'
     let mut blocked_by: Vec<String> = Vec::new();
     let mut tool_only = false;
     let mut moved_links_only = false;
+    let mut j1_base_only = false;
     for k in 0..6 {
         for target in [&from, &to] {
             let mut cand = c.initial;
@@ -115,6 +117,9 @@ pub fn eval(c: &Case, pools: bool) -> Result<(Vec<(String, String)>, String), &'
                 if !det.is_empty() && det.iter().all(|&(a, b)| a >= k && b >= k && a < 6 && b < 6) {
                     moved_links_only = true;
                 }
+                if k == 0 && !det.is_empty() && det.iter().all(|&(_, b)| b == rs_opw_kinematics::kinematic_traits::J_BASE) {
+                    j1_base_only = true;
+                }
                 blocked_by.push(format!("J{}:{:?}", k + 1, det));
                 continue;
             }
@@ -148,7 +153,7 @@ pub fn eval(c: &Case, pools: bool) -> Result<(Vec<(String, String)>, String), &'
             }
         }
     }
-    Ok((fails, format!("offered{}:illegal{}:colliding{}{}", classes[0], classes[1], classes[2].min(6), if tool_only { ":tool-vs-unmoved-link-only" } else { "" }).to_string() + if moved_links_only { ":moved-links-only" } else { "" }))
+    Ok((fails, format!("offered{}:illegal{}:colliding{}{}", classes[0], classes[1], classes[2].min(6), if tool_only { ":tool-vs-unmoved-link-only" } else { "" }).to_string() + if moved_links_only { ":moved-links-only" } else { "" } + if j1_base_only && cell.envs.is_empty() { ":j1-into-base-in-empty-cell" } else { "" }))
 }
 
 fn case_json(c: &Case) -> Value {
@@ -173,7 +178,7 @@ pub fn run(ctx: &Ctx) -> Report {
     let mags = [0.35, 1.3, 2.2, 2.9, 0.8, 1.8];
     let n_delta = if thorough { 72 } else { 24 };
     let layouts = [0usize, 2, 3, 9, 10, 20];
-    let sizes = [6, layouts.len(), 2, 2, initials.len(), n_delta];
+    let sizes = [7, layouts.len(), 2, 2, initials.len(), n_delta];
     let n = par::product(&sizes);
     let mut rep = par::run(n, |idx, r| {
         let mut ix = [0usize; 6];
@@ -200,19 +205,22 @@ pub fn run(ctx: &Ctx) -> Report {
     if !rep.signatures.iter().any(|s| !s.contains("colliding0")) && rep.fails.is_empty() {
         rep.machinery_errors.push("no candidate was ever rejected for a collision".into());
     }
-    if !rep.signatures.iter().any(|s| s.ends_with("moved-links-only")) && rep.fails.is_empty() {
+    if !rep.signatures.iter().any(|s| s.contains("moved-links-only")) && rep.fails.is_empty() {
         rep.machinery_errors.push("no candidate blocked only by two links at or beyond the moved joint (parallelogram cell)".into());
+    }
+    if !rep.signatures.iter().any(|s| s.contains("j1-into-base-in-empty-cell")) && rep.fails.is_empty() {
+        rep.machinery_errors.push("no J1 candidate blocked only by the stationary base body in a cell without environment objects".into());
     }
     if !rep.signatures.iter().any(|s| s.contains("tool-vs-unmoved-link-only")) && rep.fails.is_empty() {
         rep.machinery_errors.push("no candidate blocked only by the tool meeting a link before the moved joint".into());
     }
     rep.traces_validated = rep.transitions;
-    rep.rule = "synthetic cell (with/without base and tool, moved base, parallelogram J2->J3 on top) x environments x safety {touch, 3 cm} x limits {wide, tight} x collision-free initial \
+    rep.rule = "synthetic cell (with/without base and tool, moved base, parallelogram J2->J3 on top, base body with a post beside the robot) x environments x safety {touch, 3 cm} x limits {wide, tight} x collision-free initial \
                 postures x from/to = initial -+ delta (half of the cases: from == to on one side of the initial value, or both on the same side) with per-joint magnitudes {0.35,0.8,1.3,1.8,2.2,2.9} (moving a joint into free space, self-collision, the base, \
                 the environment or out of limits); oracle: the 12 single-joint candidates kept iff arc membership accepts them and the full collides() \
                 of the same robot reports them free, compared as multisets; every 8th case re-run in rayon pools of 1, 2, 4, 8, 16 threads; \
                 signature = (offered, illegal, colliding)".into();
-    rep.set("axes", json!({"presence": 6, "layouts": layouts.len(), "safety": 2, "limits": 2, "initials": initials.len(), "delta_vectors": n_delta}));
+    rep.set("axes", json!({"presence": 7, "layouts": layouts.len(), "safety": 2, "limits": 2, "initials": initials.len(), "delta_vectors": n_delta}));
     rep.assumptions.push("the full collision check used as reference is tied to the brute-force pair oracle by C10".into());
     rep
 }
